@@ -293,11 +293,11 @@ def bsf_wt(bsf):
         assert np.all(bsf.data == 1), \
                 'BSF {} is not in binary form'.format(bsf)
 
+        # Count the qubits acted on row by row, as the dense branch does
+        # (pooling the column indices of all rows would count a qubit that
+        # several rows act on only once).
         n = bsf.shape[1] // 2
-        x_indices = bsf.indices[bsf.indices < n]
-        z_indices = bsf.indices[bsf.indices >= n] - n
-
-        return len(np.union1d(x_indices, z_indices))
+        return (bsf[:, :n] + bsf[:, n:]).count_nonzero()
     else:
         raise TypeError(
             f"bsf matrix should be a numpy array or "
